@@ -62,7 +62,6 @@ func TestC20(t *testing.T) {
 	RunCheck(t, CheckSpec{Prop: "C20",
 		Rule:        "plans under every fault class (store faults, partitions, outside writes, takeover, health scripts, connection notifications, probes, stops at op phases, restarts, new objects) plus 1-3 'hammers': 2-8 concurrent caller goroutines per instance issuing IsLeader, LeaderID, Token, Status, ValidateToken, ValidateTokenOrDemote and callback re-registration every 1ns..H/4 of virtual time during a generated window; the binary is built with -race and runs with GOMAXPROCS=16 (virtual time, real parallel execution inside the bubble); oracle: every report of the Go race detector, normalised to the unordered pair of innermost library functions. Non-trivial = a run in which >= 2 hammer calls were made and a leadership transition of the hammered instance happened inside the hammer window; distinct by plan hash.",
 		Gen:         genRacePlan,
-		Fixed:       func() []*Plan { return LoadRegressions("C20") },
 		Oracle:      OracleC20,
 		Assumptions: []string{"the race detector only reports races on accesses that were executed; it is happens-before based, so the accesses need not coincide in time", "reports with no library frame on either side are harness bugs: they fail the check's self-test, not the property"}})
 }
